@@ -60,6 +60,22 @@ PROPS["C06"] = dict(engine="E7", level="exploration",
    level_text="Seeded exploration of (parent history x Refilter sequence x tree x schedule perturbation) with an exact oracle at every quiescence barrier: cache(n) == filter_n(cache(parent(n))) with identical versions for every ready filtered node (conjunction along clone chains follows level by level) and mirror-of-own-events == own cache for every event-bearing node.",
    design_ref="DESIGN.md 5.6", technique="runtime monitoring: snapshot comparison at synctest quiescence barriers against the reference filter applied to the parent's cache; event-replay mirrors; race detector on")
 
+PROPS["C07"] = dict(engine="E8", level="exploration",
+   rule="exhaustive: 16 parent contents (all subsets of 4 objects that the filter family distinguishes) x all ordered pairs of the 10-member filter family (equal/rebuilt-equal, overlapping, disjoint, accept-all, accept-none, FN twin) x 4 node variants (SubscribeWithFilter, SubscribeForFilter, CloneWithFilter + plain subscriber below, CloneForFilter + plain subscriber below); quick adds an equal-filter step for a third of the pairs, thorough runs every triple A->B->A'(rebuilt)->A''(equal). Each Refilter call between two quiescence barriers is one evaluation, all distinct by construction; every one is non-trivial (the delivered event multiset and the cache are compared with the exact expectation).",
+   assumptions=["no parent events in flight (the engine is the only producer and is idle around the call)"],
+   floors={"any": {"refilters-with-delta": 2000, "refilters-silent": 500, "pairs": 6400}},
+   exhaustive_key="pairs", exhaustive_min=6400,
+   level_text="Exhaustive enumeration of the stated finite family on the real filtered subscription / clone: events drained between two quiescence barriers around Refilter must be exactly one Delete per cached object the new filter rejects and one Create per newly accepted parent object, nothing else; cache == new filter over the content; equal filter silent; back to the earlier filter restores the view.",
+   design_ref="DESIGN.md 5.7", technique="runtime monitoring: exact event-multiset oracle between synctest quiescence barriers around Refilter, exhaustive over contents x filter pairs x variants")
+
+PROPS["C08"] = dict(engine="E9", level="exploration",
+   rule="exhaustive over operation sequences: every word over {R parent becomes ready (at most once), E Refilter(equal), N Refilter(new), V parent event / parent cache change, S subscribe below} of length <=5 (quick: 2958 words; thorough <=6: 13198 words) x {SubscribeWithFilter, SubscribeForFilter, CloneWithFilter, CloneForFilter} x chain depth 1-3, run STEPPED (a quiescence barrier and a full judgement after every step) and UNSTEPPED (no barriers, logger perturbation on, judgement at the end; quick: words of length >=4). One evaluation = one word executed on a fresh root kit; all distinct by construction; non-trivial = the readiness automaton and content checks were evaluated for every node after the word.",
+   assumptions=["the root kit only publishes after MakeReady, as a controller does", "failed-first-list clause is decided in E15 (reported under C08/ready-after-failed-first-list) and event-before-ready also by E6/E7 consumers"],
+   floors={"any": {"sequences": 30000, "ready-state-checks": 100000, "content-at-readiness-checks": 20000}},
+   exhaustive_key="sequences", exhaustive_min=30000,
+   level_text="Exhaustive enumeration of the stated operation orders on the real filtered subscriptions/clones with three monitors per node: a consumer flagging any event received while Ready() is open, a goroutine that reads the cache the moment Ready() fires and must see the filtered parent content, and the reference readiness automaton compared at every barrier.",
+   design_ref="DESIGN.md 5.8", technique="runtime monitoring: reference readiness automaton + read-at-readiness watcher + event-before-ready monitor, exhaustive over operation orders, stepped and perturbed-unstepped")
+
 ENGINES = {
  "E1": dict(path="harness/engines/e01_cache_test.go", kind="direct drive of the cache actor vs reference model R-cache; exhaustive small universe + random walks"),
  "E4": dict(path="harness/engines/e04_converge_test.go", kind="real controller over fault-injecting fake API server; convergence oracles at virtual-time quiescence"),
@@ -68,5 +84,7 @@ ENGINES = {
  "E14": dict(path="harness/engines/e14_cadence_test.go", kind="lister alone and real controller over the (period, latency, consumption) grid in virtual time"),
  "E6": dict(path="harness/engines/e06_pubsub_test.go", kind="root kit + Subscribe/Clone trees; per-leaf sequence checker"),
  "E7": dict(path="harness/engines/e07_filtered_test.go", kind="filtered subscription/clone trees over root kit or real controller; snapshot oracle at barriers"),
+ "E8": dict(path="harness/engines/e08_refilter_test.go", kind="exhaustive Refilter delta check over contents x filter pairs x node variants"),
+ "E9": dict(path="harness/engines/e09_ready_test.go", kind="exhaustive readiness-order enumeration on filtered subscriptions/clones"),
 }
 NA = {}
